@@ -154,3 +154,47 @@ Proof.
     unfold set_slot; cbn [ids names fam slots]; rewrite set_nth_length;
     (repeat split; try reflexivity); intros sj Hne; apply set_nth_other; congruence.
 Qed.
+
+(* ---------- C09: the columns of a << b ---------- *)
+Lemma view_of_cols (cols : list (string * slot)) nf ids0 b0 k0 :
+  view {| fam := nf; ids := ids0; names := combine (map fst cols) (seq 0 (List.length cols));
+          slots := map snd cols; tsorted := b0; dflt := k0 |}
+  = map (fun ns : string * slot => (fst ns, skind (snd ns), scells (snd ns))) cols.
+Proof.
+  unfold view. cbn [names slots].
+  assert (H : forall (pre : list slot) cs,
+             map (fun '(n, i) => match nth_error (pre ++ map snd cs) i with
+                                 | Some s => (n, skind s, scells s) | None => (n, KMixed, []) end)
+                 (combine (map fst cs) (seq (List.length pre) (List.length cs)))
+             = map (fun ns : string * slot => (fst ns, skind (snd ns), scells (snd ns))) cs).
+  { intros pre cs. revert pre. induction cs as [|[n s] cs IH]; intros pre; [reflexivity|].
+    cbn [map fst snd combine seq List.length]. f_equal.
+    - rewrite nth_error_app2 by lia. rewrite Nat.sub_diag. reflexivity.
+    - specialize (IH (pre ++ [s])). rewrite <- app_assoc in IH. cbn [app] in IH.
+      rewrite app_length in IH. cbn [List.length] in IH. rewrite Nat.add_1_r in IH. exact IH. }
+  exact (H [] cols).
+Qed.
+
+Theorem concat_view a b nf t :
+  concat_tables a b nf = Ok t ->
+  let find (n : string) (v : list (string * kind * list val)) := lookup n (map (fun '(m, k, c) => (m, (k, c))) v) in
+  view t =
+    map (fun '(n, k, c) => (n, k, c ++ match find n (view b) with
+                                       | Some (_, c2) => c2
+                                       | None => repeat (default_cell k) (nrows b) end)) (view a)
+    ++ flat_map (fun '(n, k, c) => match find n (view a) with
+                                   | Some _ => []
+                                   | None => [(n, k, repeat (default_cell k) (nrows a) ++ c)] end) (view b).
+Proof.
+  unfold concat_tables. match goal with |- context [if ?c then _ else _] => destruct c end; [discriminate|].
+  intros H. injection H as <-. cbv zeta.
+  rewrite view_of_cols. rewrite map_app. f_equal.
+  - rewrite map_map. apply map_ext. intros [[n k] c]. reflexivity.
+  - induction (view b) as [|[[n k] c] vb IH]; [reflexivity|]. cbn [flat_map]. rewrite map_app, IH. f_equal.
+    destruct (lookup n _); reflexivity.
+Qed.
+
+(* ---------- C06: names bound to one slot read the same cells (the deliberate alias) ---------- *)
+Theorem alias_reads_same t n1 n2 i :
+  lookup n1 (names t) = Some i -> lookup n2 (names t) = Some i -> slot_of t n1 = slot_of t n2.
+Proof. intros H1 H2. unfold slot_of. rewrite H1, H2. reflexivity. Qed.
